@@ -15,7 +15,7 @@ SMALL_THIS = {
     },
     'consts': {},
 }
-SMALL_ALIASES = {'A': {'fields': {'y': ('num', 'float64'), 'b': ('bool',)}, 'consts': {}}}
+SMALL_ALIASES = {'A': {'fields': {'y': ('num', 'float64'), 'b': ('bool',), 'ys': ('arr', ('num', 'int32'), -1)}, 'consts': {}}}
 
 X = own('x')
 AY = ('field', ('var', 'A'), 'y')
@@ -33,7 +33,8 @@ ARITH = ['+', '-', '*', '/', '**']
 RELS = ['=', '!=', '<', '<=', '>', '>=']
 CONN = ['and', 'or', 'implies', 'iff']
 BOOL_ATOMS = [P, Q, binop('>', X, L(0)), TRUE, FALSE, AB]
-DOMAINS = [XS, ('set', (L(1), L(2))), ('range', L(0), L(1), False, False)]
+AYS = ('field', ('var', 'A'), 'ys')
+DOMAINS = [XS, ('set', (L(1), L(2))), ('range', L(0), L(1), False, False), AYS, ('set', (AY, L(1)))]
 
 
 def num_terms(depth):
